@@ -5260,6 +5260,18 @@ def _import_group_key(node: ast.Import | ast.ImportFrom) -> Tuple[int, int]:
     )
 
 
+def _import_order_matters(nodes: Sequence[ast.AST]) -> bool:
+    """Whether some name is bound by more than one of these import statements, or may be."""
+    bound_names = collections.Counter()
+    for node in nodes:
+        names = {alias.asname or alias.name.split(".")[0] for alias in node.names}
+        if "*" in names:
+            return True
+        bound_names.update(names)
+
+    return any(count > 1 for count in bound_names.values())
+
+
 def _sort_import_statements(source: str) -> str:
     root = core.parse(source)
     replacements = {}
@@ -5269,6 +5281,10 @@ def _sort_import_statements(source: str) -> str:
 
         # The statements of a group trade places: all of them must be allowed to change
         if any(core.has_ignore_comment(source, core.get_charnos(node, source)) for node in nodes):
+            continue
+
+        # Later imports win: a star import, or two imports of the same name, must keep their order
+        if _import_order_matters(nodes):
             continue
 
         sorted_nodes = sorted(nodes, key=_import_group_key)
